@@ -341,6 +341,7 @@ func GetEvidence(header SessionHeader, evidenceType EvidenceType, max sdk.BigInt
 	}
 	// if hit relay limit... Seal the evidence
 	if found && !max.Equal(sdk.ZeroInt()) && evidence.NumOfProofs >= max.Int64() {
+		SimYield("getevidence/limit-seal")
 		evidence, ok = SealEvidence(evidence, storage)
 		if !ok {
 			err = fmt.Errorf("max relays is hit and could not seal evidence! GetEvidence() with header %v", header)
@@ -428,6 +429,7 @@ func SetProof(header SessionHeader, evidenceType EvidenceType, p Proof, max sdk.
 	if err != nil {
 		log.Fatalf("could not set proof object: %s", err.Error())
 	}
+	SimYield("setproof/loaded")
 	// add proof
 	evidence.AddProof(p)
 	// set GOBEvidence back
